@@ -3,7 +3,8 @@
 
   `exec_refines_lexical_partial`: for the command fragment
 
-      raw text, {print e} (no directives), {css}, {debugger}, {log}, {if}/{elseif}/{else},
+      raw text, {print e} with directives (|d₁:a₁,…|d₂ …, arguments in the expression fragment), {css},
+      {debugger}, {log}, {if}/{elseif}/{else},
       {switch}/{case}/{default},
       {foreach $x in L}…{ifempty}… / {for $i in L} with L a list literal [e₁, …], range(a[, b[, s]]) or a
         variable $l,
@@ -28,12 +29,20 @@
   data="$m" / a map literal: the callee's data scope is the map's frame (read-only) under a fresh param
   frame; it binds the map's entries (`MapSim`; a repeated key of a literal: the first item on both sides).
 
+  Print directives: the specification takes a directive semantics `Spec.Eval.DirSem` as a parameter (which
+  names exist, their arities, which cancel autoescaping, what an implementation computes) and fixes the
+  loop itself (left to right, unknown name / wrong number of arguments = error, arguments evaluated left
+  to right, escape last iff not cancelled).  The theorems hold for every `dsem` with `DirOk g dsem`: the
+  same table as the interpreter's and implementations that `applyDirective` agrees with on scalars;
+  `modelDirSem` (the interpreter's own library read as a `DirSem`) is one (`modelDirSem_ok`).  Without a
+  `DirSem` a print with directives is `unspec` as before.
+
   `foreach_over_value_refines` / `list_variable_agrees` are the {foreach}-over-a-value statements of the
   earlier rounds (now instances of the fragment: `forc_core` with `ValSim.of_var`).
 
   Still outside (exactly): expressions beyond Props/C01's scalar operator fragment (accesses, collection
   literals other than a loop's list literal and a call's map literal, functions other than a loop's range —
-  hence also `index` / `isFirst` / `isLast`), collections nested in collections, print directives, {msg} with a message bundle (the
+  hence also `index` / `isFirst` / `isLast`), collections nested in collections, {msg} with a message bundle (the
   specification leaves the translated text open: `hasBundle` ⇒ unspec).  Those are covered by the scoping theorems of Props/C02.lean and by
   the Spec.render oracle of the C02exec correspondence.
 -/
@@ -54,6 +63,9 @@ def optFrag (coll : Bytes → Bool) : Option Expr → Bool
 def fragList (coll : Bytes → Bool) : ExprList → Bool
   | .nil => true
   | .cons e r => frag coll e && fragList coll r
+
+/-- the directives of a print: their arguments in the expression fragment -/
+def dirsFrag (coll : Bytes → Bool) (ds : List Directive) : Bool := ds.all fun d => d.args.all (frag coll)
 
 /-- the items of a map literal -/
 def mapFrag (coll : Bytes → Bool) : MapItems → Bool
@@ -76,7 +88,7 @@ def listFrag (coll : Bytes → Bool) : Expr → Bool
 mutual
 def cfrag (coll : Bytes → Bool) : Cmd → Bool
   | .rawText _ _ => true
-  | .print _ a dirs => dirs.isEmpty && frag coll a
+  | .print _ a dirs => frag coll a && dirsFrag coll dirs
   | .css _ e _ => optFrag coll e
   | .debugger _ => true
   | .log _ b => bfrag coll b
@@ -465,10 +477,51 @@ theorem evalIn_range_sim {g : GEnv} {ctx : Scope} {st : St} {env : Spec.Eval.Env
     · have hlen' : ¬args.length = 1 ∧ ¬args.length = 2 ∧ ¬args.length = 3 := by simpa using hlen
       simp [evalIn, evalE, hloopM, har, hlen']
 
+/-- the interpreter's directive implementations compute what the specification's parameter `F` says, on
+    scalars -/
+def DirAgree (F : Bytes → Val → List Val → Out Val) : Prop :=
+  ∀ impl mv margs, Scalar mv = true → (∀ x ∈ margs, Scalar x = true) →
+    (∀ v', F impl (absV mv) (absL margs) = .val v' →
+      ∃ mv', applyDirective impl mv margs = some mv' ∧ absV mv' = v' ∧ Scalar mv' = true) ∧
+    (F impl (absV mv) (absL margs) = .error → applyDirective impl mv margs = none)
+
+/-- the specification's directive semantics (if one is supplied) is the interpreter's: the same table, and
+    implementations that agree -/
+def DirOk (g : GEnv) (dsem : Option Spec.Eval.DirSem) : Prop :=
+  ∀ D, dsem = some D →
+    (∀ name, D.lookup name = (Directives.lookup g.tbl name).map fun e => (e.arities, e.impl, e.cancel)) ∧
+    DirAgree D.apply
+
+theorem evalPrintAt_undef {g : GEnv} {esc : Bool} {pos : Nat} {arg : Expr} {dirs : List Directive} {ctx : Scope} {st st1 : St}
+    (he : evalIn g arg ctx st = some (.undefined, st1)) : (evalPrintAt g esc pos arg dirs ctx st).cls = .err := by
+  unfold evalPrintAt; rw [he]
+
+theorem evalPrintAt_dirs_none {g : GEnv} {esc : Bool} {pos : Nat} {arg : Expr} {dirs : List Directive} {ctx : Scope} {st st1 : St}
+    {mv : Value} (he : evalIn g arg ctx st = some (mv, st1))
+    (hrun : runDirectives g ctx (dirs ++ obligDirs pos g.oblig) mv esc st1 = none) :
+    (evalPrintAt g esc pos arg dirs ctx st).cls = .err := by
+  unfold evalPrintAt; rw [he]
+  cases mv <;> simp [hrun]
+
+theorem evalPrintAt_str_none {g : GEnv} {esc e' : Bool} {pos : Nat} {arg : Expr} {dirs : List Directive} {ctx : Scope} {st st1 st2 : St}
+    {mv r : Value} (he : evalIn g arg ctx st = some (mv, st1))
+    (hrun : runDirectives g ctx (dirs ++ obligDirs pos g.oblig) mv esc st1 = some (r, e', st2)) (hs : str r = none) :
+    (evalPrintAt g esc pos arg dirs ctx st).cls = .err := by
+  unfold evalPrintAt; rw [he]
+  cases mv <;> simp [hrun, hs]
+
+theorem evalPrintAt_ok {g : GEnv} {esc e' : Bool} {pos : Nat} {arg : Expr} {dirs : List Directive} {ctx : Scope} {st st1 st2 : St}
+    {mv r : Value} {s : Bytes} (he : evalIn g arg ctx st = some (mv, st1)) (hne : mv ≠ .undefined)
+    (hrun : runDirectives g ctx (dirs ++ obligDirs pos g.oblig) mv esc st1 = some (r, e', st2)) (hs : str r = some s) :
+    evalPrintAt g esc pos arg dirs ctx st = ⟨.ok, ctx, if e' then writeAll st2 (escChunks s) else write st2 s⟩ := by
+  unfold evalPrintAt; rw [he]
+  cases mv <;> simp_all
+
 section
 variable {coll : Bytes → Bool} (g : GEnv) (hob : g.oblig = []) (esc : Bool) (call : Registry.Tmpl → Run) (hcall : ∀ t, GoodRun (call t))
   (reg : Registry.Reg) (hasBundle : Bool) (entry : Spec.Eval.Binds) (scall : Registry.Tmpl → Spec.Eval.CallEnv → Out Bytes)
-  (hreg : g.reg = reg) (hmsg : hasBundle = false → g.msgs = none)
+  (dsem : Option Spec.Eval.DirSem)
+  (hreg : g.reg = reg) (hmsg : hasBundle = false → g.msgs = none) (hdir : DirOk g dsem)
   (hcs : ∀ (t : Registry.Tmpl), t ∈ reg → ∀ (cctx : Scope) (s2 : St) (ce : Spec.Eval.CallEnv),
     Rel coll g ce.entry cctx s2 { vars := ce.entry, loops := [], ij := ce.ij, globals := ce.globals } → Own cctx s2 → ScopeOk cctx s2 →
     AgreeT s2 (call t cctx s2) (scall t ce))
@@ -560,22 +613,22 @@ theorem matchCase_sim {ctx : Scope} {env : Spec.Eval.Env} (sv : Value) (hsv : Sc
 def cmdsE : CmdList → Spec.Eval.Env → Spec.Eval.ROut
   | .nil, env => .val ([], env)
   | .cons c rest, env =>
-    (Spec.Eval.renderCmd reg hasBundle esc entry scall c env).bind fun r =>
+    (Spec.Eval.renderCmd reg hasBundle esc entry scall dsem c env).bind fun r =>
       (cmdsE rest r.2).bind fun r2 => .val (r.1 ++ r2.1, r2.2)
 
 theorem renderCmds_eq : ∀ (cs : CmdList) (env : Spec.Eval.Env),
-    Spec.Eval.renderCmds reg hasBundle esc entry scall cs env =
-      (cmdsE esc reg hasBundle entry scall cs env).bind fun p => .val p.1
+    Spec.Eval.renderCmds reg hasBundle esc entry scall dsem cs env =
+      (cmdsE esc reg hasBundle entry scall dsem cs env).bind fun p => .val p.1
   | .nil, env => by rw [Spec.Eval.renderCmds, cmdsE]; rfl
   | .cons c rest, env => by
     rw [Spec.Eval.renderCmds, cmdsE]
-    cases h : Spec.Eval.renderCmd reg hasBundle esc entry scall c env with
+    cases h : Spec.Eval.renderCmd reg hasBundle esc entry scall dsem c env with
     | unspec => rfl
     | error => rfl
     | val r =>
       simp only [Spec.Eval.Out.bind]
       rw [renderCmds_eq rest r.2]
-      cases cmdsE esc reg hasBundle entry scall rest r.2 <;> rfl
+      cases cmdsE esc reg hasBundle entry scall dsem rest r.2 <;> rfl
 
 theorem find_bind (env : Spec.Eval.Env) (name : Bytes) (v : Val) (k : Bytes) :
     (env.bind name v).lookup k = if k == name then v else env.lookup k := by
@@ -831,19 +884,106 @@ theorem dataFrag_sim {ctx : Scope} {st : St} {env : Spec.Eval.Env} (hr : Rel col
     | cons _ _ => simp [dataFrag] at hf
   | _ => simp [dataFrag] at hf
 
+/-- a list of expressions (the arguments of a directive), left to right -/
+theorem evalList_sim {ctx : Scope} {env : Spec.Eval.Env} : ∀ (es : List Expr), es.all (frag coll) = true → ∀ (st : St),
+    Rel coll g entry ctx st env →
+    (∀ vs, Spec.Eval.evalAll env es = .val vs → ∃ mvs st1, evalList g ctx es st = some (mvs, st1) ∧ absL mvs = vs ∧
+        (∀ x ∈ mvs, Scalar x = true) ∧ st1.heap = st.heap ∧ st1.out = st.out) ∧
+    (Spec.Eval.evalAll env es = .error → evalList g ctx es st = none)
+  | [], _, st, _ => by
+    rw [Spec.Eval.evalAll, evalList]
+    exact ⟨fun vs h => by simp only [Out.val.injEq] at h; exact ⟨[], st, rfl, by rw [← h]; rfl, by simp, rfl, rfl⟩, fun h => by simp at h⟩
+  | e :: r, hf, st, hr => by
+    simp only [List.all_cons, Bool.and_eq_true] at hf
+    obtain ⟨h1, h2⟩ := evalIn_sim hr e hf.1
+    rw [Spec.Eval.evalAll, evalList]
+    refine ⟨fun vs hv => ?_, fun herr => ?_⟩
+    · obtain ⟨v, hv1, hv⟩ := C01.bind_val hv
+      obtain ⟨vr, hv2, hv⟩ := C01.bind_val hv
+      obtain ⟨mv, st1, he, habs, hsc, hh, ho⟩ := h1 v hv1
+      obtain ⟨mvs, st2, hes, habs2, hsc2, hh2, ho2⟩ := (evalList_sim r hf.2 st1 (hr.of_heap hh)).1 vr hv2
+      simp only [Out.val.injEq] at hv
+      rw [he]; simp only [hes]
+      refine ⟨mv :: mvs, st2, rfl, by rw [← hv, absL, habs, habs2], ?_, by rw [hh2, hh], by rw [ho2, ho]⟩
+      intro x hx
+      rcases List.mem_cons.mp hx with rfl | hx
+      · exact hsc
+      · exact hsc2 x hx
+    · rcases C01.bind_err herr with h | ⟨v, hv1, herr⟩
+      · rw [h2 h]
+      · obtain ⟨mv, st1, he, _, _, hh, _⟩ := h1 v hv1
+        rw [he]
+        rcases C01.bind_err herr with h | ⟨vr, _, h⟩
+        · simp only [(evalList_sim r hf.2 st1 (hr.of_heap hh)).2 h]
+        · simp at h
+
+include hdir in
+/-- the directive loop of a print: left to right, an unknown name or a wrong number of arguments fails,
+    a cancelling directive clears the escape flag -/
+theorem runDirectives_sim {ctx : Scope} {env : Spec.Eval.Env} : ∀ (ds : List Directive), dirsFrag coll ds = true →
+    ∀ (mv : Value) (esc : Bool) (st : St), Scalar mv = true → Rel coll g entry ctx st env →
+    (∀ r, Spec.Eval.runDirs dsem env ds (absV mv) esc = .val r → ∃ mv' st2,
+        runDirectives g ctx ds mv esc st = some (mv', r.2, st2) ∧ absV mv' = r.1 ∧ Scalar mv' = true ∧
+        st2.heap = st.heap ∧ st2.out = st.out) ∧
+    (Spec.Eval.runDirs dsem env ds (absV mv) esc = .error → runDirectives g ctx ds mv esc st = none)
+  | [], _, mv, esc, st, hsc, _ => by
+    rw [Spec.Eval.runDirs, runDirectives]
+    exact ⟨fun r h => by simp only [Out.val.injEq] at h; subst h; exact ⟨mv, st, rfl, rfl, hsc, rfl, rfl⟩, fun h => by simp at h⟩
+  | d :: ds, hf, mv, esc, st, hsc, hr => by
+    simp only [dirsFrag, List.all_cons, Bool.and_eq_true] at hf
+    have ihds := runDirectives_sim (ctx := ctx) (env := env) ds hf.2
+    cases hD : dsem with
+    | none => rw [Spec.Eval.runDirs]; exact ⟨fun r h => by simp at h, fun h => by simp at h⟩
+    | some D =>
+      rw [hD] at ihds
+      rw [Spec.Eval.runDirs, runDirectives]
+      obtain ⟨hlk, hF⟩ := hdir D hD
+      simp only [hlk d.name]
+      cases hL : Directives.lookup g.tbl d.name with
+      | none => exact ⟨fun r h => by simp at h, fun _ => rfl⟩
+      | some e =>
+        simp only [Option.map_some, Directives.checkNumArgs]
+        by_cases har : (!e.arities.any (· == d.args.length)) = true
+        · simp only [har, if_true]
+          exact ⟨fun r h => by simp at h, fun _ => trivial⟩
+        · simp only [har, Bool.false_eq_true, if_false]
+          obtain ⟨ha1, ha2⟩ := evalList_sim g entry d.args hf.1 st hr
+          refine ⟨fun r hv => ?_, fun herr => ?_⟩
+          · obtain ⟨args, hv1, hv⟩ := C01.bind_val hv
+            obtain ⟨v', hv2, hv⟩ := C01.bind_val hv
+            obtain ⟨margs, st1, hes, habs, hscs, hh, ho⟩ := ha1 args hv1
+            subst habs
+            obtain ⟨mv', hap, habs', hsc'⟩ := (hF e.impl mv margs hsc hscs).1 v' hv2
+            subst habs'
+            obtain ⟨mv2, st2, hrun, h3, h4, h5, h6⟩ :=
+              (ihds mv' (if e.cancel then false else esc) st1 hsc' (hr.of_heap hh)).1 r hv
+            simp only [hes, hap]
+            exact ⟨mv2, st2, hrun, h3, h4, by rw [h5, hh], by rw [h6, ho]⟩
+          · rcases C01.bind_err herr with h | ⟨args, hv1, herr⟩
+            · simp only [ha2 h]
+            · obtain ⟨margs, st1, hes, habs, hscs, hh, ho⟩ := ha1 args hv1
+              subst habs
+              simp only [hes]
+              rcases C01.bind_err herr with h | ⟨v', hv2, herr⟩
+              · simp only [(hF e.impl mv margs hsc hscs).2 h]
+              · obtain ⟨mv', hap, habs', hsc'⟩ := (hF e.impl mv margs hsc hscs).1 v' hv2
+                subst habs'
+                simp only [hap]
+                exact (ihds mv' (if e.cancel then false else esc) st1 hsc' (hr.of_heap hh)).2 herr
+
 include hcall in
 /-- {foreach} / {for}, given the evaluation of its list (`hE`), its body (`hb`) and its {ifempty} block -/
 theorem forc_core (p0 : Nat) (var : Bytes) (E : Expr) (body : Block) (ifE : Option Block)
     (ctx : Scope) (st : St) (env : Spec.Eval.Env) (hr : Rel coll g entry ctx st env) (hok : ScopeOk ctx st)
     (hb : ∀ ctx' st' env', Rel coll g entry ctx' st' env' → Own ctx' st' → ScopeOk ctx' st' →
         ∃ o : Spec.Eval.ROut, Agree coll g entry ctx' st' (execBody g esc call body ctx' st') o ∧
-          Spec.Eval.renderBlock reg hasBundle esc entry scall body env' = o.bind fun q => .val q.1)
+          Spec.Eval.renderBlock reg hasBundle esc entry scall dsem body env' = o.bind fun q => .val q.1)
     (hemp : ∀ bE, ifE = some bE → ∀ st1, Rel coll g entry ctx st1 env → ScopeOk ctx st1 →
         AgreeB coll g entry ctx st1 env (walkBlockOf (execBody g esc call bE) ctx st1)
-          (Spec.Eval.renderBlock reg hasBundle esc entry scall bE env))
+          (Spec.Eval.renderBlock reg hasBundle esc entry scall dsem bE env))
     (hE : ValSim coll g E ctx st env) :
     Agree coll g entry ctx st (execCmd g esc call (.forc p0 var E body ifE) ctx st)
-      (Spec.Eval.renderCmd reg hasBundle esc entry scall (.forc p0 var E body ifE) env) := by
+      (Spec.Eval.renderCmd reg hasBundle esc entry scall dsem (.forc p0 var E body ifE) env) := by
   obtain ⟨h1, h2⟩ := hE
   rw [execCmd, Spec.Eval.renderCmd.eq_def]
   simp only
@@ -868,7 +1008,7 @@ theorem forc_core (p0 : Nat) (var : Bytes) (E : Expr) (body : Block) (ifE : Opti
         | some bE =>
           have hbe := hemp bE rfl st1 hr1 hok1
           simp only
-          cases hve : Spec.Eval.renderBlock reg hasBundle esc entry scall bE env with
+          cases hve : Spec.Eval.renderBlock reg hasBundle esc entry scall dsem bE env with
           | unspec => simp [Spec.Eval.Out.bind, Agree]
           | error => rw [hve] at hbe; simpa [Spec.Eval.Out.bind, Agree, AgreeB] using hbe
           | val out =>
@@ -880,7 +1020,7 @@ theorem forc_core (p0 : Nat) (var : Bytes) (E : Expr) (body : Block) (ifE : Opti
         have hl := loop_agree g entry (execBody g esc call body) _ (execBody_good g esc call hcall _) hb var
           (((x :: rest).length : Int) - 1) ((absV x :: absL rest).length - 1) (x :: rest) 0 ctx st1 env hr1 hok1 hsc
         rw [absL] at hl
-        cases hlv : Spec.Eval.loopSpec (Spec.Eval.renderBlock reg hasBundle esc entry scall body) env var
+        cases hlv : Spec.Eval.loopSpec (Spec.Eval.renderBlock reg hasBundle esc entry scall dsem body) env var
             ((absV x :: absL rest).length - 1) (absV x :: absL rest) 0 with
         | unspec => simp [Agree]
         | error => rw [hlv] at hl; simpa [Agree, AgreeB] using hl
@@ -924,18 +1064,18 @@ theorem call_core (callee : Registry.Tmpl) (hmem : callee ∈ reg) (ps : ParamLi
     (own0 : Own (⟨n, false⟩ :: sc) st0)
     (hn : n < st0.heap.length) (hsc0 : ∀ x ∈ sc, x.ref < st0.heap.length)
     (hp : AgreeP coll (⟨n, false⟩ :: sc) st0 B (execParams g esc call ps (⟨n, false⟩ :: sc) ctx st0)
-      (Spec.Eval.renderParams reg hasBundle esc entry scall ps env))
+      (Spec.Eval.renderParams reg hasBundle esc entry scall dsem ps env))
     (hglob : ∀ k, match Frame.find g.globals k with
       | some v => Spec.Eval.find env.globals k = some (absV v) ∧ Scalar v = true
       | none => Spec.Eval.find env.globals k = none)
     (hrel : Rel coll g entry ctx (callRest g esc call callee ps (⟨n, false⟩ :: sc) ctx st0).st env) :
     Agree coll g entry ctx st0 (callRest g esc call callee ps (⟨n, false⟩ :: sc) ctx st0)
-      ((Spec.Eval.renderParams reg hasBundle esc entry scall ps env).bind fun R =>
+      ((Spec.Eval.renderParams reg hasBundle esc entry scall dsem ps env).bind fun R =>
         (scall callee { entry := R ++ B, ij := env.ij, globals := env.globals }).bind fun out => .val (out, env)) := by
   have hpg := execParams_good g esc call hcall ps (⟨n, false⟩ :: sc) ctx st0 own0
   unfold callRest at hrel ⊢
   simp only at hrel ⊢
-  cases hpv : Spec.Eval.renderParams reg hasBundle esc entry scall ps env with
+  cases hpv : Spec.Eval.renderParams reg hasBundle esc entry scall dsem ps env with
   | unspec => simp [Agree, Spec.Eval.Out.bind]
   | error => rw [hpv] at hp; simp only [AgreeP] at hp; simp [Agree, Spec.Eval.Out.bind, hp]
   | val R =>
@@ -1005,11 +1145,11 @@ theorem call_core (callee : Registry.Tmpl) (hmem : callee ∈ reg) (ps : ParamLi
       simp only [Agree]
       exact ⟨hct.1, by show bufBytes (call callee cctx s2).st.out = _; rw [hct.2, hout2], hrel⟩
 
-include hob hcall hreg hmsg hcs in
+include hob hcall hreg hmsg hdir hcs in
 mutual
 theorem cmd_agree : (c : Cmd) → cfrag coll c = true → ∀ (ctx : Scope) (st : St) (env : Spec.Eval.Env),
     Rel coll g entry ctx st env → Own ctx st → ScopeOk ctx st →
-    Agree coll g entry ctx st (execCmd g esc call c ctx st) (Spec.Eval.renderCmd reg hasBundle esc entry scall c env)
+    Agree coll g entry ctx st (execCmd g esc call c ctx st) (Spec.Eval.renderCmd reg hasBundle esc entry scall dsem c env)
   | .rawText _ t, _, ctx, st, env, hr, _, _ => by
     rw [execCmd, Spec.Eval.renderCmd]
     exact ⟨rfl, bufBytes_write st t, hr.of_heap rfl⟩
@@ -1020,9 +1160,8 @@ theorem cmd_agree : (c : Cmd) → cfrag coll c = true → ∀ (ctx : Scope) (st 
     rw [execCmd, Spec.Eval.renderCmd]
     exact ⟨rfl, by simp, hr⟩
   | .print pos arg dirs, hf, ctx, st, env, hr, _, _ => by
-    simp only [cfrag, Bool.and_eq_true, List.isEmpty_iff] at hf
-    obtain ⟨hd, hfa⟩ := hf
-    subst hd
+    simp only [cfrag, Bool.and_eq_true] at hf
+    obtain ⟨hfa, hfd⟩ := hf
     rw [execCmd]
     unfold evalPrint
     refine Agree.of_atNode (p := Expr.pos arg) ?_
@@ -1032,30 +1171,47 @@ theorem cmd_agree : (c : Cmd) → cfrag coll c = true → ∀ (ctx : Scope) (st 
     have hr := hr0
     obtain ⟨h1, h2⟩ := evalIn_sim hr arg hfa
     rw [Spec.Eval.renderCmd]
-    simp only [List.isEmpty_nil, Bool.not_true, Bool.false_eq_true, if_false]
-    unfold evalPrintAt
-    cases hv : Spec.Eval.eval env arg with
-    | unspec => simp [Spec.Eval.Out.bind, Agree]
-    | error => simp [Spec.Eval.Out.bind, Agree, h2 hv]
-    | val v =>
-      obtain ⟨mv, st1, he, habs, hsc, hheap, hout⟩ := h1 v hv
-      obtain ⟨s1, s2⟩ := show_scalar mv hsc
-      rw [habs] at s1 s2
-      simp only [Spec.Eval.Out.bind]
-      cases hs : Spec.Eval.showVal v with
-      | unspec => simp [Agree]
+    by_cases hU : (!dirs.isEmpty && dsem.isNone) = true
+    · simp [hU, Agree]
+    · simp only [hU, Bool.false_eq_true, if_false]
+      cases hv : Spec.Eval.eval env arg with
+      | unspec => simp [Spec.Eval.Out.bind, Agree]
       | error =>
-        have hstr := s2 hs
-        simp only [Agree, he]
-        cases mv <;> simp_all [hob, obligDirs, runDirectives]
-      | val s =>
-        have hstr := s1 s hs
-        have hne : mv ≠ .undefined := by
-          intro e; subst e; simp [str, Value.render, Value.toString] at hstr
-        simp only [Agree, he]
-        cases mv <;> simp_all [hob, obligDirs, runDirectives] <;>
-          (cases esc <;> simp [bufBytes_write, bufBytes_writeAll, escChunks_flatten, hout] <;>
-            exact hr.of_heap (by simp [writeAll_heap, write, hheap]))
+        simp only [Spec.Eval.Out.bind, Agree]
+        unfold evalPrintAt; simp [h2 hv]
+      | val v =>
+        obtain ⟨mv, st1, he, habs, hsc, hheap, hout⟩ := h1 v hv
+        subst habs
+        simp only [Spec.Eval.Out.bind]
+        by_cases hund : mv = .undefined
+        · subst hund
+          simp only [absV, Spec.Eval.isUndef, if_true, Agree]
+          exact evalPrintAt_undef he
+        · have hnu : Spec.Eval.isUndef (absV mv) = false := by cases mv <;> simp_all [absV, Spec.Eval.isUndef]
+          simp only [hnu, Bool.false_eq_true, if_false]
+          have hd := runDirectives_sim g entry dsem hdir dirs hfd mv esc st1 hsc (hr.of_heap hheap)
+          have hdl : dirs ++ obligDirs pos g.oblig = dirs := by rw [hob]; simp [obligDirs]
+          cases hrd : Spec.Eval.runDirs dsem env dirs (absV mv) esc with
+          | unspec => simp [Agree]
+          | error =>
+            simp only [Agree]
+            exact evalPrintAt_dirs_none he (by rw [hdl]; exact hd.2 hrd)
+          | val r =>
+            obtain ⟨mv', st2, hrun, habs', hsc', hh2, ho2⟩ := hd.1 r hrd
+            obtain ⟨s1, s2⟩ := show_scalar mv' hsc'
+            rw [habs'] at s1 s2
+            simp only
+            cases hs : Spec.Eval.showVal r.1 with
+            | unspec => simp [Agree]
+            | error =>
+              simp only [Agree]
+              exact evalPrintAt_str_none he (by rw [hdl]; exact hrun) (s2 hs)
+            | val s =>
+              rw [evalPrintAt_ok he hund (by rw [hdl]; exact hrun) (s1 s hs)]
+              simp only [Agree]
+              refine ⟨trivial, ?_, ?_⟩
+              · cases r.2 <;> simp [bufBytes_write, bufBytes_writeAll, escChunks_flatten, ho2, hout]
+              · cases r.2 <;> exact hr.of_heap (by simp [writeAll_heap, write, hh2, hheap])
   | .css _ none suffix, _, ctx, st, env, hr, _, _ => by
     rw [execCmd, Spec.Eval.renderCmd]
     exact ⟨rfl, bufBytes_write st suffix, hr.of_heap rfl⟩
@@ -1082,7 +1238,7 @@ theorem cmd_agree : (c : Cmd) → cfrag coll c = true → ∀ (ctx : Scope) (st 
     rw [execCmd, Spec.Eval.renderCmd]
     have hb := body_agree body hf ctx { st with out := [] } env (hr.of_heap rfl) hok
     unfold renderBlockOf
-    cases hv : Spec.Eval.renderBlock reg hasBundle esc entry scall body env with
+    cases hv : Spec.Eval.renderBlock reg hasBundle esc entry scall dsem body env with
     | unspec => simp [Spec.Eval.Out.bind, Agree]
     | error => rw [hv] at hb; simp only [AgreeB] at hb; simp [Spec.Eval.Out.bind, Agree, hb]
     | val out =>
@@ -1094,7 +1250,7 @@ theorem cmd_agree : (c : Cmd) → cfrag coll c = true → ∀ (ctx : Scope) (st 
     simp only [cfrag] at hf
     rw [execCmd, Spec.Eval.renderCmd]
     have hc := conds_agree conds hf ctx st env hr hown hok
-    cases hv : Spec.Eval.renderConds reg hasBundle esc entry scall conds env with
+    cases hv : Spec.Eval.renderConds reg hasBundle esc entry scall dsem conds env with
     | unspec => simp [Spec.Eval.Out.bind, Agree]
     | error => rw [hv] at hc; simpa [Spec.Eval.Out.bind, Agree, AgreeB] using hc
     | val out => rw [hv] at hc; simpa [Spec.Eval.Out.bind, Agree, AgreeB] using hc
@@ -1129,7 +1285,7 @@ theorem cmd_agree : (c : Cmd) → cfrag coll c = true → ∀ (ctx : Scope) (st 
     have hb := body_agree body hf ctx { st with out := [] } env (hr.of_heap rfl) hok
     have hgood := (renderBlockOf_good' (execBody_good g esc call hcall body) ctx st).1
     unfold renderBlockOf at hgood ⊢
-    cases hv : Spec.Eval.renderBlock reg hasBundle esc entry scall body env with
+    cases hv : Spec.Eval.renderBlock reg hasBundle esc entry scall dsem body env with
     | unspec => simp [Spec.Eval.Out.bind, Agree]
     | error => rw [hv] at hb; simp only [AgreeB] at hb; simp [Spec.Eval.Out.bind, Agree, hb]
     | val out =>
@@ -1168,34 +1324,34 @@ theorem cmd_agree : (c : Cmd) → cfrag coll c = true → ∀ (ctx : Scope) (st 
       simp only [hmsg hB, Bool.false_eq_true, if_false]
       -- the message is one block: a fresh frame around its parts
       have hb := block_agree g entry (walkMsgBody g esc call body)
-        (fun env' => (Spec.Eval.renderParts reg hasBundle esc entry scall body env').bind fun r => .val r.1)
+        (fun env' => (Spec.Eval.renderParts reg hasBundle esc entry scall dsem body env').bind fun r => .val r.1)
         (walkMsgBody_good g esc call hcall body)
         (fun ctx' st' env' hr' hown' hok' =>
-          ⟨Spec.Eval.renderParts reg hasBundle esc entry scall body env', parts_agree body hf ctx' st' env' hr' hown' hok', rfl⟩)
+          ⟨Spec.Eval.renderParts reg hasBundle esc entry scall dsem body env', parts_agree body hf ctx' st' env' hr' hown' hok', rfl⟩)
         ctx st env hr hok
       rw [hB] at hb
-      cases hv : Spec.Eval.renderParts reg false esc entry scall body env with
+      cases hv : Spec.Eval.renderParts reg false esc entry scall dsem body env with
       | unspec => simp [Spec.Eval.Out.bind, Agree]
       | error => rw [hv] at hb; simpa [Spec.Eval.Out.bind, Agree, AgreeB] using hb
       | val q => rw [hv] at hb; simpa [Spec.Eval.Out.bind, Agree, AgreeB] using hb
   | .forc p0 var E (.mk bp cs) none, hf, ctx, st, env, hr, hown, hok => by
     simp only [cfrag, bfrag, Bool.and_eq_true] at hf
-    refine forc_core g esc call hcall reg hasBundle entry scall p0 var E (.mk bp cs) none ctx st env hr hok ?_
+    refine forc_core g esc call hcall reg hasBundle entry scall dsem p0 var E (.mk bp cs) none ctx st env hr hok ?_
       (fun bE h => by cases h) (listFrag_sim g entry hr E hf.1)
     intro ctx' st' env' hr' hown' hok'
-    refine ⟨cmdsE esc reg hasBundle entry scall cs env', ?_, ?_⟩
+    refine ⟨cmdsE esc reg hasBundle entry scall dsem cs env', ?_, ?_⟩
     · rw [execBody]; exact Agree.of_atNode (cmds_agree cs hf.2 ctx' _ env' (hr'.of_heap rfl) (hown'.atNode _) hok')
-    · rw [Spec.Eval.renderBlock]; exact renderCmds_eq esc reg hasBundle entry scall cs env'
+    · rw [Spec.Eval.renderBlock]; exact renderCmds_eq esc reg hasBundle entry scall dsem cs env'
   | .forc p0 var E (.mk bp cs) (some bE), hf, ctx, st, env, hr, hown, hok => by
     simp only [cfrag, bfrag, Bool.and_eq_true] at hf
-    refine forc_core g esc call hcall reg hasBundle entry scall p0 var E (.mk bp cs) (some bE) ctx st env hr hok ?_
+    refine forc_core g esc call hcall reg hasBundle entry scall dsem p0 var E (.mk bp cs) (some bE) ctx st env hr hok ?_
       (fun bE' h st1 hr1 hok1 => by
         simp only [Option.some.injEq] at h; subst h
         exact body_agree bE hf.2 ctx st1 env hr1 hok1) (listFrag_sim g entry hr E hf.1.1)
     intro ctx' st' env' hr' hown' hok'
-    refine ⟨cmdsE esc reg hasBundle entry scall cs env', ?_, ?_⟩
+    refine ⟨cmdsE esc reg hasBundle entry scall dsem cs env', ?_, ?_⟩
     · rw [execBody]; exact Agree.of_atNode (cmds_agree cs hf.1.2 ctx' _ env' (hr'.of_heap rfl) (hown'.atNode _) hok')
-    · rw [Spec.Eval.renderBlock]; exact renderCmds_eq esc reg hasBundle entry scall cs env'
+    · rw [Spec.Eval.renderBlock]; exact renderCmds_eq esc reg hasBundle entry scall dsem cs env'
   | .switch _ value cases, hf, ctx, st, env, hr, hown, hok => by
     simp only [cfrag, Bool.and_eq_true] at hf
     obtain ⟨h1, h2⟩ := evalIn_sim hr value hf.1
@@ -1211,7 +1367,7 @@ theorem cmd_agree : (c : Cmd) → cfrag coll c = true → ∀ (ctx : Scope) (st 
       have hc := cases_agree cases mv hsc hf.2 ctx st1 env hr1 hown1 hok1
       rw [habs] at hc
       simp only [Spec.Eval.Out.bind, he]
-      cases hcv : Spec.Eval.renderCases reg hasBundle esc entry scall cases v env with
+      cases hcv : Spec.Eval.renderCases reg hasBundle esc entry scall dsem cases v env with
       | unspec => simp [Agree]
       | error => rw [hcv] at hc; simpa [Agree, AgreeB] using hc
       | val out =>
@@ -1278,7 +1434,7 @@ theorem cmd_agree : (c : Cmd) → cfrag coll c = true → ∀ (ctx : Scope) (st 
               obtain ⟨f, r, c, h1, h2, h3⟩ := hown
               exact ⟨f, r, c, h1, by rw [hheap]; exact h2, h3⟩).ext (Ext.append st1 _)) own0 (by intro f hf'; simp at hf'; rcases hf' with rfl | rfl <;> simp) hfr0 hne hok0
           exact Agree.of_out g entry (st0 := { st1 with heap := st1.heap ++ [⟨kvs, true⟩, ⟨[], false⟩] }) hout
-            (call_core g esc call hcall reg hasBundle entry scall hcs callee (List.mem_of_find?_eq_some hl) ps ctx _ env
+            (call_core g esc call hcall reg hasBundle entry scall dsem hcs callee (List.mem_of_find?_eq_some hl) ps ctx _ env
               (st1.heap.length + 1) [⟨st1.heap.length, false⟩] B own0 (by simp) (by simp) hp hr.base.globals hrel)
         | undefined => cases v <;> first | exact absurd rfl (hms _) | simp [Spec.Eval.Out.bind, Agree, callData, he]
         | null => cases v <;> first | exact absurd rfl (hms _) | simp [Spec.Eval.Out.bind, Agree, callData, he]
@@ -1317,7 +1473,7 @@ theorem cmd_agree : (c : Cmd) → cfrag coll c = true → ∀ (ctx : Scope) (st 
         have := hok f hf'; simp; omega
       have hp := params_agree ps hf [⟨st.heap.length, false⟩] ctx _ env [] hr0 (hown.ext (Ext.append st _)) own0 (by intro f hf'; simp at hf'; subst hf'; simp) hfr0 hne hok0
       exact Agree.of_out g entry (st0 := { st with heap := st.heap ++ [⟨[], false⟩] }) rfl
-        (call_core g esc call hcall reg hasBundle entry scall hcs callee (List.mem_of_find?_eq_some hl) ps ctx _ env
+        (call_core g esc call hcall reg hasBundle entry scall dsem hcs callee (List.mem_of_find?_eq_some hl) ps ctx _ env
           st.heap.length [] [] own0 (by simp) (by simp) hp hr.base.globals hrel)
   | .call p name true none ps, hf, ctx, st, env, hr, hown, hok => by
     simp only [cfrag] at hf
@@ -1359,7 +1515,7 @@ theorem cmd_agree : (c : Cmd) → cfrag coll c = true → ∀ (ctx : Scope) (st 
           · simp
           · have := hlt0 f hf'; simp; omega) hfr0 hne hok0
       exact Agree.of_out g entry (st0 := { st with heap := st.heap ++ [⟨[], false⟩] }) rfl
-        (call_core g esc call hcall reg hasBundle entry scall hcs callee (List.mem_of_find?_eq_some hl) ps ctx _ env
+        (call_core g esc call hcall reg hasBundle entry scall dsem hcs callee (List.mem_of_find?_eq_some hl) ps ctx _ env
           st.heap.length sc entry own0 (by simp) (fun x hx => by have := hlt0 x hx; simp; omega) hp hr.base.globals hrel)
   | .namespace .., hf, _, _, _, _, _, _ => by simp [cfrag] at hf
   | .template .., hf, _, _, _, _, _, _ => by simp [cfrag] at hf
@@ -1367,17 +1523,17 @@ theorem cmd_agree : (c : Cmd) → cfrag coll c = true → ∀ (ctx : Scope) (st 
 /-- a block: `walkBlock` against the specification's `renderBlock` -/
 theorem body_agree : (b : Block) → bfrag coll b = true → ∀ (ctx : Scope) (st : St) (env : Spec.Eval.Env),
     Rel coll g entry ctx st env → ScopeOk ctx st →
-    AgreeB coll g entry ctx st env (walkBlockOf (execBody g esc call b) ctx st) (Spec.Eval.renderBlock reg hasBundle esc entry scall b env)
+    AgreeB coll g entry ctx st env (walkBlockOf (execBody g esc call b) ctx st) (Spec.Eval.renderBlock reg hasBundle esc entry scall dsem b env)
   | .mk _ cs, hf, ctx, st, env, hr, hok => by
     simp only [bfrag] at hf
     refine block_agree g entry (execBody g esc call (.mk _ cs)) _ (execBody_good g esc call hcall _) ?_ ctx st env hr hok
     intro ctx' st' env' hr' hown' hok'
-    refine ⟨cmdsE esc reg hasBundle entry scall cs env', ?_, ?_⟩
+    refine ⟨cmdsE esc reg hasBundle entry scall dsem cs env', ?_, ?_⟩
     · rw [execBody]; exact Agree.of_atNode (cmds_agree cs hf ctx' _ env' (hr'.of_heap rfl) (hown'.atNode _) hok')
-    · rw [Spec.Eval.renderBlock]; exact renderCmds_eq esc reg hasBundle entry scall cs env'
+    · rw [Spec.Eval.renderBlock]; exact renderCmds_eq esc reg hasBundle entry scall dsem cs env'
 theorem cmds_agree : (cs : CmdList) → csFrag coll cs = true → ∀ (ctx : Scope) (st : St) (env : Spec.Eval.Env),
     Rel coll g entry ctx st env → Own ctx st → ScopeOk ctx st →
-    Agree coll g entry ctx st (execCmds g esc call cs ctx st) (cmdsE esc reg hasBundle entry scall cs env)
+    Agree coll g entry ctx st (execCmds g esc call cs ctx st) (cmdsE esc reg hasBundle entry scall dsem cs env)
   | .nil, _, ctx, st, env, hr, _, _ => by
     rw [execCmds, cmdsE]; exact ⟨rfl, by simp, hr⟩
   | .cons c rest, hf, ctx, st, env, hr, hown, hok => by
@@ -1393,7 +1549,7 @@ theorem cmds_agree : (cs : CmdList) → csFrag coll cs = true → ∀ (ctx : Sco
     have h1 := cmd_agree c hf.1 ctx st env hr hown hok
     have hg := execCmd_good g esc call hcall c ctx st hown
     rw [cmdsE]
-    cases hv : Spec.Eval.renderCmd reg hasBundle esc entry scall c env with
+    cases hv : Spec.Eval.renderCmd reg hasBundle esc entry scall dsem c env with
     | unspec => simp [Spec.Eval.Out.bind, Agree]
     | error => rw [hv] at h1; simp only [Agree] at h1; simp [Spec.Eval.Out.bind, Agree, h1]
     | val p =>
@@ -1404,7 +1560,7 @@ theorem cmds_agree : (cs : CmdList) → csFrag coll cs = true → ∀ (ctx : Sco
       simp only [Spec.Eval.Out.bind, hcls, hg.ctx_eq hcls]
       have hok1 : ScopeOk ctx (execCmd g esc call c ctx st).st := fun f hf' => Nat.lt_of_lt_of_le (hok f hf') hg.ext.len
       have h2 := cmds_agree rest hf.2 ctx _ env1 hrel (hown.ext hg.ext) hok1
-      cases hv2 : cmdsE esc reg hasBundle entry scall rest env1 with
+      cases hv2 : cmdsE esc reg hasBundle entry scall dsem rest env1 with
       | unspec => simp [Agree]
       | error => rw [hv2] at h2; simpa [Agree] using h2
       | val p2 =>
@@ -1414,7 +1570,7 @@ theorem cmds_agree : (cs : CmdList) → csFrag coll cs = true → ∀ (ctx : Sco
 theorem cases_agree : (cs : CaseList) → (sv : Value) → Scalar sv = true → casesFrag coll cs = true →
     ∀ (ctx : Scope) (st : St) (env : Spec.Eval.Env), Rel coll g entry ctx st env → Own ctx st → ScopeOk ctx st →
     AgreeB coll g entry ctx st env (execCases g esc call cs sv ctx st)
-      (Spec.Eval.renderCases reg hasBundle esc entry scall cs (absV sv) env)
+      (Spec.Eval.renderCases reg hasBundle esc entry scall dsem cs (absV sv) env)
   | .nil, _, _, _, ctx, st, env, hr, _, _ => by
     rw [execCases, Spec.Eval.renderCases]; exact ⟨rfl, by simp, hr⟩
   | .cons _ values body rest, sv, hsv, hf, ctx, st, env, hr, hown, hok => by
@@ -1449,7 +1605,7 @@ theorem cases_agree : (cs : CaseList) → (sv : Value) → Scalar sv = true → 
           exact conv ho (cases_agree rest sv hsv hf.2 ctx st1 env hr1 hown1 hok1)
 theorem conds_agree : (cs : CondList) → condsFrag coll cs = true → ∀ (ctx : Scope) (st : St) (env : Spec.Eval.Env),
     Rel coll g entry ctx st env → Own ctx st → ScopeOk ctx st →
-    AgreeB coll g entry ctx st env (execConds g esc call cs ctx st) (Spec.Eval.renderConds reg hasBundle esc entry scall cs env)
+    AgreeB coll g entry ctx st env (execConds g esc call cs ctx st) (Spec.Eval.renderConds reg hasBundle esc entry scall dsem cs env)
   | .nil, _, ctx, st, env, hr, _, _ => by
     rw [execConds, Spec.Eval.renderConds]; exact ⟨rfl, by simp, hr⟩
   | .cons _ none body _, hf, ctx, st, env, hr, _, hok => by
@@ -1484,7 +1640,7 @@ theorem conds_agree : (cs : CondList) → condsFrag coll cs = true → ∀ (ctx 
 theorem params_agree : (ps : ParamList) → paramsFrag coll ps = true →
     ∀ (cd ctx : Scope) (st : St) (env : Spec.Eval.Env) (B0 : Spec.Eval.Binds),
     Rel coll g entry ctx st env → Own ctx st → Own cd st → ScopeOk cd st → FrameRel coll st.heap cd B0 → (∀ f ∈ ctx, f.ref ≠ top cd) → ScopeOk ctx st →
-    AgreeP coll cd st B0 (execParams g esc call ps cd ctx st) (Spec.Eval.renderParams reg hasBundle esc entry scall ps env)
+    AgreeP coll cd st B0 (execParams g esc call ps cd ctx st) (Spec.Eval.renderParams reg hasBundle esc entry scall dsem ps env)
   | .nil, _, cd, ctx, st, env, B0, _, _, _, _, hfr, _, _ => by
     rw [Spec.Eval.renderParams, execParams]
     exact ⟨rfl, by simpa using hfr, rfl⟩
@@ -1519,7 +1675,7 @@ theorem params_agree : (ps : ParamList) → paramsFrag coll ps = true →
         have hok2 : ScopeOk ctx st2 := fun f hf' => Nat.lt_of_lt_of_le (hok1 f hf') e2.len
         have hcd2 : ScopeOk cd st2 := fun f hf' => Nat.lt_of_lt_of_le (by rw [hheap]; exact hcd f hf') e2.len
         have ih := params_agree rest hf.2 cd ctx st2 env ((key, v) :: B0) hr2 ((hown.ext e1).ext e2) (own1.ext e2) hcd2 hfr2 hne hok2
-        cases hrr : Spec.Eval.renderParams reg hasBundle esc entry scall rest env with
+        cases hrr : Spec.Eval.renderParams reg hasBundle esc entry scall dsem rest env with
         | unspec => simp [AgreeP]
         | error => rw [hrr] at ih; simpa [AgreeP] using ih
         | val R =>
@@ -1534,7 +1690,7 @@ theorem params_agree : (ps : ParamList) → paramsFrag coll ps = true →
     have hb := body_agree body hf.1 ctx { st with out := [] } env (hr.of_heap rfl) hok
     have hgood := (renderBlockOf_good' (execBody_good g esc call hcall body) ctx st).1
     unfold renderBlockOf at hgood ⊢
-    cases hv : Spec.Eval.renderBlock reg hasBundle esc entry scall body env with
+    cases hv : Spec.Eval.renderBlock reg hasBundle esc entry scall dsem body env with
     | unspec => simp [Spec.Eval.Out.bind, AgreeP]
     | error => rw [hv] at hb; simp only [AgreeB] at hb; simp [Spec.Eval.Out.bind, AgreeP, hb]
     | val out =>
@@ -1573,7 +1729,7 @@ theorem params_agree : (ps : ParamList) → paramsFrag coll ps = true →
         have hok2 : ScopeOk ctx st2 := fun f hf' => Nat.lt_of_lt_of_le (hok1 f hf') e2.len
         have hcd2 : ScopeOk cd st2 := fun f hf' => Nat.lt_of_lt_of_le (hcd1 f hf') e2.len
         have ih := params_agree rest hf.2 cd ctx st2 env ((key, .str out) :: B0) hr2 (hown1.ext e2) (own1.ext e2) hcd2 hfr2 hne hok2
-        cases hrr : Spec.Eval.renderParams reg hasBundle esc entry scall rest env with
+        cases hrr : Spec.Eval.renderParams reg hasBundle esc entry scall dsem rest env with
         | unspec => simp [AgreeP]
         | error => rw [hrr] at ih; simpa [AgreeP] using ih
         | val R =>
@@ -1585,7 +1741,7 @@ theorem params_agree : (ps : ParamList) → paramsFrag coll ps = true →
 /-- the parts of a {msg} without a bundle: walked in order -/
 theorem parts_agree : (ps : MsgParts) → partsFrag coll ps = true → ∀ (ctx : Scope) (st : St) (env : Spec.Eval.Env),
     Rel coll g entry ctx st env → Own ctx st → ScopeOk ctx st →
-    Agree coll g entry ctx st (walkMsgBody g esc call ps ctx st) (Spec.Eval.renderParts reg hasBundle esc entry scall ps env)
+    Agree coll g entry ctx st (walkMsgBody g esc call ps ctx st) (Spec.Eval.renderParts reg hasBundle esc entry scall dsem ps env)
   | .nil, _, ctx, st, env, hr, _, _ => by
     rw [walkMsgBody, Spec.Eval.renderParts]; exact ⟨rfl, by simp, hr⟩
   | .text p t rest, hf, ctx, st, env, hr, hown, hok => by
@@ -1593,7 +1749,7 @@ theorem parts_agree : (ps : MsgParts) → partsFrag coll ps = true → ∀ (ctx 
     rw [walkMsgBody, Spec.Eval.renderParts]
     have ih := parts_agree rest hf ctx (write (atNode st p) t) env (hr.of_heap rfl)
       ((hown.atNode p).ext (write_ext (fun _ => False) _ t)) hok
-    cases hv : Spec.Eval.renderParts reg hasBundle esc entry scall rest env with
+    cases hv : Spec.Eval.renderParts reg hasBundle esc entry scall dsem rest env with
     | unspec => simp [Spec.Eval.Out.bind, Agree]
     | error => rw [hv] at ih; simpa [Spec.Eval.Out.bind, Agree] using ih
     | val q =>
@@ -1610,7 +1766,7 @@ theorem parts_agree : (ps : MsgParts) → partsFrag coll ps = true → ∀ (ctx 
     rw [walkMsgBody, Spec.Eval.renderParts]
     have h1 := ph_agree b hf.1 ctx st env hr hown hok
     have hg := execPh_good g esc call hcall b ctx st hown
-    cases hv : Spec.Eval.renderPh reg hasBundle esc entry scall b env with
+    cases hv : Spec.Eval.renderPh reg hasBundle esc entry scall dsem b env with
     | unspec => simp [Spec.Eval.Out.bind, Agree]
     | error => rw [hv] at h1; simp only [Agree] at h1; simp [Spec.Eval.Out.bind, Agree, h1]
     | val q =>
@@ -1621,7 +1777,7 @@ theorem parts_agree : (ps : MsgParts) → partsFrag coll ps = true → ∀ (ctx 
       simp only [Spec.Eval.Out.bind, hcls, hg.ctx_eq hcls]
       have hok1 : ScopeOk ctx (execPh g esc call b ctx st).st := fun f hf' => Nat.lt_of_lt_of_le (hok f hf') hg.ext.len
       have h2 := parts_agree rest hf.2 ctx _ env1 hrel (hown.ext hg.ext) hok1
-      cases hv2 : Spec.Eval.renderParts reg hasBundle esc entry scall rest env1 with
+      cases hv2 : Spec.Eval.renderParts reg hasBundle esc entry scall dsem rest env1 with
       | unspec => simp [Agree]
       | error => rw [hv2] at h2; simpa [Agree] using h2
       | val q2 =>
@@ -1648,14 +1804,14 @@ theorem parts_agree : (ps : MsgParts) → partsFrag coll ps = true → ∀ (ctx 
         simp only [absV]
         have hd : ∀ ctx' st' env', Rel coll g entry ctx' st' env' → Own ctx' st' → ScopeOk ctx' st' →
             Agree coll g entry ctx' st' (walkMsgBody g esc call dflt ctx' st')
-              (Spec.Eval.renderParts reg hasBundle esc entry scall dflt env') :=
+              (Spec.Eval.renderParts reg hasBundle esc entry scall dsem dflt env') :=
           fun ctx' st' env' hr' hown' hok' => parts_agree dflt hfd ctx' st' env' hr' hown' hok'
         have hp1 := plural_agree cases hfc (walkMsgBody g esc call dflt)
-          (Spec.Eval.renderParts reg hasBundle esc entry scall dflt) hd i.toInt ctx st1 env hr1 hown1 hok1
+          (Spec.Eval.renderParts reg hasBundle esc entry scall dsem dflt) hd i.toInt ctx st1 env hr1 hown1 hok1
         have hg := walkPluralCases_good g esc call hcall cases (walkMsgBody g esc call dflt)
           (walkMsgBody_good g esc call hcall dflt) i.toInt ctx st1 hown1
-        cases hv1 : Spec.Eval.renderPlural reg hasBundle esc entry scall cases
-            (Spec.Eval.renderParts reg hasBundle esc entry scall dflt) i.toInt env with
+        cases hv1 : Spec.Eval.renderPlural reg hasBundle esc entry scall dsem cases
+            (Spec.Eval.renderParts reg hasBundle esc entry scall dsem dflt) i.toInt env with
         | unspec => simp [Agree]
         | error => rw [hv1] at hp1; simp only [Agree] at hp1; simp [Agree, hp1]
         | val q =>
@@ -1667,7 +1823,7 @@ theorem parts_agree : (ps : MsgParts) → partsFrag coll ps = true → ∀ (ctx 
           have hok2 : ScopeOk ctx (walkPluralCases g esc call cases (walkMsgBody g esc call dflt) i.toInt ctx st1).st :=
             fun f hf' => Nat.lt_of_lt_of_le (hok1 f hf') hg.ext.len
           have h3 := parts_agree rest hfr ctx _ env1 hrel (hown1.ext hg.ext) hok2
-          cases hv2 : Spec.Eval.renderParts reg hasBundle esc entry scall rest env1 with
+          cases hv2 : Spec.Eval.renderParts reg hasBundle esc entry scall dsem rest env1 with
           | unspec => simp [Agree]
           | error => rw [hv2] at h3; simpa [Agree] using h3
           | val q2 =>
@@ -1684,7 +1840,7 @@ theorem parts_agree : (ps : MsgParts) → partsFrag coll ps = true → ∀ (ctx 
 /-- a placeholder: an HTML tag (its text) or a command -/
 theorem ph_agree : (b : MsgPhBody) → phFrag coll b = true → ∀ (ctx : Scope) (st : St) (env : Spec.Eval.Env),
     Rel coll g entry ctx st env → Own ctx st → ScopeOk ctx st →
-    Agree coll g entry ctx st (execPh g esc call b ctx st) (Spec.Eval.renderPh reg hasBundle esc entry scall b env)
+    Agree coll g entry ctx st (execPh g esc call b ctx st) (Spec.Eval.renderPh reg hasBundle esc entry scall dsem b env)
   | .htmlTag p text, _, ctx, st, env, hr, _, _ => by
     rw [execPh, Spec.Eval.renderPh]
     exact ⟨rfl, bufBytes_write _ text, hr.of_heap rfl⟩
@@ -1697,7 +1853,7 @@ theorem plural_agree : (cs : PluralCases) → plFrag coll cs = true → ∀ (dfl
     (∀ ctx st env, Rel coll g entry ctx st env → Own ctx st → ScopeOk ctx st → Agree coll g entry ctx st (dflt ctx st) (sd env)) →
     ∀ (i : Int) (ctx : Scope) (st : St) (env : Spec.Eval.Env),
     Rel coll g entry ctx st env → Own ctx st → ScopeOk ctx st →
-    Agree coll g entry ctx st (walkPluralCases g esc call cs dflt i ctx st) (Spec.Eval.renderPlural reg hasBundle esc entry scall cs sd i env)
+    Agree coll g entry ctx st (walkPluralCases g esc call cs dflt i ctx st) (Spec.Eval.renderPlural reg hasBundle esc entry scall dsem cs sd i env)
   | .nil, _, dflt, sd, hd, i, ctx, st, env, hr, hown, hok => by
     rw [walkPluralCases, Spec.Eval.renderPlural]; exact hd ctx st env hr hown hok
   | .cons _ v _ body rest, hf, dflt, sd, hd, i, ctx, st, env, hr, hown, hok => by
@@ -1709,27 +1865,27 @@ theorem plural_agree : (cs : PluralCases) → plFrag coll cs = true → ∀ (dfl
 end
 
 
-include hob hcall hreg hmsg hcs in
+include hob hcall hreg hmsg hdir hcs in
 /-- The walk of a template body refines the lexical semantics: on the fragment, whenever `Spec.renderBlock`
     yields text the model ends ok and has written exactly that text after what was written before;
     whenever it yields an error the model yields an error. -/
 theorem exec_refines_lexical_partial (b : Block) (hf : bfrag coll b = true) (ctx : Scope) (st : St) (env : Spec.Eval.Env)
     (hr : Rel coll g entry ctx st env) (hown : Own ctx st) (hok : ScopeOk ctx st) :
-    match Spec.Eval.renderBlock reg hasBundle esc entry scall b env with
+    match Spec.Eval.renderBlock reg hasBundle esc entry scall dsem b env with
     | .val out => (execBody g esc call b ctx st).cls = .ok ∧
         bufBytes (execBody g esc call b ctx st).st.out = bufBytes st.out ++ out
     | .error => (execBody g esc call b ctx st).cls = .err
     | .unspec => True := by
   obtain ⟨p, cs⟩ := b
   simp only [bfrag] at hf
-  have h := Agree.of_atNode (cmds_agree g hob esc call hcall reg hasBundle entry scall hreg hmsg hcs cs hf ctx (atNode st p) env (hr.of_heap rfl) (hown.atNode p) hok)
+  have h := Agree.of_atNode (cmds_agree g hob esc call hcall reg hasBundle entry scall dsem hreg hmsg hdir hcs cs hf ctx (atNode st p) env (hr.of_heap rfl) (hown.atNode p) hok)
   rw [Spec.Eval.renderBlock, renderCmds_eq, execBody]
-  cases hv : cmdsE esc reg hasBundle entry scall cs env with
+  cases hv : cmdsE esc reg hasBundle entry scall dsem cs env with
   | unspec => simp [Spec.Eval.Out.bind]
   | error => rw [hv] at h; simpa [Spec.Eval.Out.bind, Agree] using h
   | val q => rw [hv] at h; simp only [Agree] at h; simpa [Spec.Eval.Out.bind] using ⟨h.1, h.2.1⟩
 
-include hob hcall hreg hmsg hcs in
+include hob hcall hreg hmsg hdir hcs in
 /-- {foreach $x in E} over a list VALUE: for ANY list expression `E` whose evaluation agrees with the
     specification's in the current state (`hE` — e.g. a variable bound to a list of scalars,
     `list_variable_agrees`), the loop refines the lexical semantics: the body runs once per element in a
@@ -1740,15 +1896,15 @@ theorem foreach_over_value_refines (p0 : Nat) (var : Bytes) (E : Expr) (bp : Nat
           v = .list (absL mvs) ∧ (∀ x ∈ mvs, Scalar x = true) ∧ st1.heap = st.heap ∧ st1.out = st.out) ∧
         (Spec.Eval.eval env E = .error → evalIn g E ctx st = none)) :
     Agree coll g entry ctx st (execCmd g esc call (.forc p0 var E (.mk bp cs) none) ctx st)
-      (Spec.Eval.renderCmd reg hasBundle esc entry scall (.forc p0 var E (.mk bp cs) none) env) := by
+      (Spec.Eval.renderCmd reg hasBundle esc entry scall dsem (.forc p0 var E (.mk bp cs) none) env) := by
     obtain ⟨h1, h2⟩ := hE
     have hb : ∀ ctx' st' env', Rel coll g entry ctx' st' env' → Own ctx' st' → ScopeOk ctx' st' →
         ∃ o : Spec.Eval.ROut, Agree coll g entry ctx' st' (execBody g esc call (.mk bp cs) ctx' st') o ∧
-          Spec.Eval.renderBlock reg hasBundle esc entry scall (.mk bp cs) env' = o.bind fun q => .val q.1 := by
+          Spec.Eval.renderBlock reg hasBundle esc entry scall dsem (.mk bp cs) env' = o.bind fun q => .val q.1 := by
       intro ctx' st' env' hr' hown' hok'
-      refine ⟨cmdsE esc reg hasBundle entry scall cs env', ?_, ?_⟩
-      · rw [execBody]; exact Agree.of_atNode (cmds_agree g hob esc call hcall reg hasBundle entry scall hreg hmsg hcs cs hfb ctx' _ env' (hr'.of_heap rfl) (hown'.atNode _) hok')
-      · rw [Spec.Eval.renderBlock]; exact renderCmds_eq esc reg hasBundle entry scall cs env'
+      refine ⟨cmdsE esc reg hasBundle entry scall dsem cs env', ?_, ?_⟩
+      · rw [execBody]; exact Agree.of_atNode (cmds_agree g hob esc call hcall reg hasBundle entry scall dsem hreg hmsg hdir hcs cs hfb ctx' _ env' (hr'.of_heap rfl) (hown'.atNode _) hok')
+      · rw [Spec.Eval.renderBlock]; exact renderCmds_eq esc reg hasBundle entry scall dsem cs env'
     rw [execCmd, Spec.Eval.renderCmd]
     cases hv : Spec.Eval.eval env E with
     | unspec => simp [Spec.Eval.Out.bind, Agree]
@@ -1768,7 +1924,7 @@ theorem foreach_over_value_refines (p0 : Nat) (var : Bytes) (E : Expr) (bp : Nat
         have hl := loop_agree g entry (execBody g esc call (.mk bp cs)) _ (execBody_good g esc call hcall _) hb var
           (((x :: rest).length : Int) - 1) ((absV x :: absL rest).length - 1) (x :: rest) 0 ctx st1 env hr1 hok1 hsc
         rw [absL] at hl
-        cases hlv : Spec.Eval.loopSpec (Spec.Eval.renderBlock reg hasBundle esc entry scall (.mk bp cs)) env var
+        cases hlv : Spec.Eval.loopSpec (Spec.Eval.renderBlock reg hasBundle esc entry scall dsem (.mk bp cs)) env var
             ((absV x :: absL rest).length - 1) (absV x :: absL rest) 0 with
         | unspec => simp [Agree]
         | error => rw [hlv] at hl; simpa [Agree, AgreeB] using hl
@@ -1801,11 +1957,11 @@ end
 def regFrag (coll : Bytes → Bool) (reg : Registry.Reg) : Prop := ∀ t ∈ reg, bfrag coll t.body = true
 
 /-- a template invocation refines the specification's, at every call depth -/
-theorem tmpl_refines (coll : Bytes → Bool) (g : GEnv) (hob : g.oblig = []) (hasBundle : Bool)
-    (hmsg : hasBundle = false → g.msgs = none) (hfr : regFrag coll g.reg) :
+theorem tmpl_refines (coll : Bytes → Bool) (g : GEnv) (hob : g.oblig = []) (hasBundle : Bool) (dsem : Option Spec.Eval.DirSem)
+    (hmsg : hasBundle = false → g.msgs = none) (hdir : DirOk g dsem) (hfr : regFrag coll g.reg) :
     ∀ (fuel : Nat) (t : Registry.Tmpl), t ∈ g.reg → ∀ (cctx : Scope) (s2 : St) (ce : Spec.Eval.CallEnv),
       Rel coll g ce.entry cctx s2 { vars := ce.entry, loops := [], ij := ce.ij, globals := ce.globals } → Own cctx s2 → ScopeOk cctx s2 →
-      AgreeT s2 (runTmpl g fuel t cctx s2) (Spec.Eval.renderTmpl g.reg hasBundle fuel t ce) := by
+      AgreeT s2 (runTmpl g fuel t cctx s2) (Spec.Eval.renderTmpl g.reg hasBundle dsem fuel t ce) := by
   intro fuel
   induction fuel with
   | zero => intro t _ cctx s2 ce _ _ _; rw [Spec.Eval.renderTmpl]; trivial
@@ -1813,11 +1969,11 @@ theorem tmpl_refines (coll : Bytes → Bool) (g : GEnv) (hob : g.oblig = []) (ha
     intro t ht cctx s2 ce hr hown hok
     rw [runTmpl, Spec.Eval.renderTmpl]
     have h := exec_refines_lexical_partial g hob (escapeOf t) (runTmpl g n) (runTmpl_good g n) g.reg hasBundle ce.entry
-      (Spec.Eval.renderTmpl g.reg hasBundle n) rfl hmsg ih t.body (hfr t ht) cctx (atNode s2 t.pos)
+      (Spec.Eval.renderTmpl g.reg hasBundle dsem n) dsem rfl hmsg hdir ih t.body (hfr t ht) cctx (atNode s2 t.pos)
       { vars := ce.entry, loops := [], ij := ce.ij, globals := ce.globals } (hr.of_heap rfl) (hown.atNode _) hok
     have hesc : Spec.Eval.escapeOn t = escapeOf t := rfl
     rw [hesc]
-    cases hv : Spec.Eval.renderBlock g.reg hasBundle (escapeOf t) ce.entry (Spec.Eval.renderTmpl g.reg hasBundle n) t.body
+    cases hv : Spec.Eval.renderBlock g.reg hasBundle (escapeOf t) ce.entry (Spec.Eval.renderTmpl g.reg hasBundle dsem n) dsem t.body
         { vars := ce.entry, loops := [], ij := ce.ij, globals := ce.globals } with
     | unspec => trivial
     | error => rw [hv] at h; exact h
@@ -1838,15 +1994,16 @@ theorem execute_some (g : GEnv) (name : Bytes) (data : Frame) (fuel : Nat) (t : 
   rfl
 
 /-- `exec_refines_lexical` on the fragment, closed: for a registry whose templates are all in the fragment
-    (raw text, print without directives, css, debugger, log, if/elseif/else, switch, foreach over a list
+    (raw text, print with directives (given `DirOk g dsem`), css, debugger, log, if/elseif/else, switch, foreach over a list
     literal, a range or a variable, let value / content, calls without a data attribute, with data="all",
     with data="$m" or a map literal, with value and content params, msg without a bundle), data of scalars and — under the names `coll` —
     lists / maps of scalars, scalar globals, no obligatory directive: whenever `Spec.render` yields text, `execute` ends ok having written
     exactly that text; whenever it yields an error, `execute` fails. -/
 theorem render_refines_lexical_partial (coll : Bytes → Bool) (g : GEnv) (hob : g.oblig = []) (hfr : regFrag coll g.reg)
     (hgl : ∀ kv ∈ g.globals, Scalar kv.2 = true) (name : Bytes) (data : Frame) (hdata : ∀ kv ∈ data, OkAt coll kv.1 kv.2)
-    (fuel : Nat) (ij : Option Spec.Eval.Binds) (hasBundle : Bool) (hmsg : hasBundle = false → g.msgs = none) :
-    match Spec.Eval.render g.reg (absK g.globals) ij hasBundle name (absK data) fuel with
+    (fuel : Nat) (ij : Option Spec.Eval.Binds) (hasBundle : Bool) (hmsg : hasBundle = false → g.msgs = none)
+    (dsem : Option Spec.Eval.DirSem) (hdir : DirOk g dsem) :
+    match Spec.Eval.render g.reg (absK g.globals) ij hasBundle name (absK data) fuel dsem with
     | .val out => (execute g name data fuel).cls = .ok ∧ (execute g name data fuel).chunks.flatten = out
     | .error => (execute g name data fuel).cls = .err ∨ (execute g name data fuel).cls = .panic
     | .unspec => True := by
@@ -1913,8 +2070,8 @@ theorem render_refines_lexical_partial (coll : Bytes → Bool) (g : GEnv) (hob :
     have hok : ScopeOk [⟨1, false⟩, ⟨0, true⟩]
         { heap := [⟨data, true⟩, ⟨[], false⟩], out := [], next := freshBase g data, foreign := 0 } := by
       intro f hf; simp at hf; rcases hf with rfl | rfl <;> simp
-    have h := tmpl_refines coll g hob hasBundle hmsg hfr fuel t ht _ _ { entry := absK data, ij := ij, globals := absK g.globals } hrel hown hok
-    cases hv : Spec.Eval.renderTmpl g.reg hasBundle fuel t { entry := absK data, ij := ij, globals := absK g.globals } with
+    have h := tmpl_refines coll g hob hasBundle dsem hmsg hdir hfr fuel t ht _ _ { entry := absK data, ij := ij, globals := absK g.globals } hrel hown hok
+    cases hv : Spec.Eval.renderTmpl g.reg hasBundle dsem fuel t { entry := absK data, ij := ij, globals := absK g.globals } with
     | unspec => trivial
     | error =>
       rw [hv] at h
@@ -1961,9 +2118,9 @@ theorem rel0 : Rel noColl g0 env0.vars ctx0 st0 env0 := by
 example : bufBytes (execBody g0 true (fun _ ctx st => ⟨.fuelOut, ctx, st⟩) body0 ctx0 st0).st.out = [105, 110, 111, 117, 116] := by
   have hcall : ∀ t, GoodRun ((fun _ ctx st => ⟨.fuelOut, ctx, st⟩ : Registry.Tmpl → Run) t) :=
     fun _ ctx st _ => ⟨by simp, fun h => by simp at h, Ext.refl _ _⟩
-  have h := exec_refines_lexical_partial g0 rfl true _ hcall [] false env0.vars (fun _ _ => .unspec) rfl (fun _ => rfl) (fun _ _ _ _ _ _ _ _ => trivial) body0 (by decide) ctx0 st0 env0 rel0
+  have h := exec_refines_lexical_partial g0 rfl true _ hcall [] false env0.vars (fun _ _ => .unspec) none rfl (fun _ => rfl) (fun _ h => by cases h) (fun _ _ _ _ _ _ _ _ => trivial) body0 (by decide) ctx0 st0 env0 rel0
     ⟨⟨1, false⟩, [⟨0, true⟩], ⟨[], false⟩, rfl, rfl, rfl⟩ (by intro f hf; simp [ctx0] at hf; rcases hf with rfl | rfl <;> simp [st0])
-  have hs : Spec.Eval.renderBlock [] false true env0.vars (fun _ _ => .unspec) body0 env0 = .val [105, 110, 111, 117, 116] := by rfl
+  have hs : Spec.Eval.renderBlock [] false true env0.vars (fun _ _ => .unspec) none body0 env0 = .val [105, 110, 111, 117, 116] := by rfl
   rw [hs] at h
   simpa [bufBytes, st0] using h.2
 
@@ -1978,9 +2135,9 @@ def body1 : Block :=
 example : bufBytes (execBody g0 true (fun _ ctx st => ⟨.fuelOut, ctx, st⟩) body1 ctx0 st0).st.out = [97, 98, 33, 111, 117, 116] := by
   have hcall : ∀ t, GoodRun ((fun _ ctx st => ⟨.fuelOut, ctx, st⟩ : Registry.Tmpl → Run) t) :=
     fun _ ctx st _ => ⟨by simp, fun h => by simp at h, Ext.refl _ _⟩
-  have h := exec_refines_lexical_partial g0 rfl true _ hcall [] false env0.vars (fun _ _ => .unspec) rfl (fun _ => rfl) (fun _ _ _ _ _ _ _ _ => trivial) body1 (by decide) ctx0 st0 env0 rel0
+  have h := exec_refines_lexical_partial g0 rfl true _ hcall [] false env0.vars (fun _ _ => .unspec) none rfl (fun _ => rfl) (fun _ h => by cases h) (fun _ _ _ _ _ _ _ _ => trivial) body1 (by decide) ctx0 st0 env0 rel0
     ⟨⟨1, false⟩, [⟨0, true⟩], ⟨[], false⟩, rfl, rfl, rfl⟩ (by intro f hf; simp [ctx0] at hf; rcases hf with rfl | rfl <;> simp [st0])
-  have hs : Spec.Eval.renderBlock [] false true env0.vars (fun _ _ => .unspec) body1 env0 = .val [97, 98, 33, 111, 117, 116] := by rfl
+  have hs : Spec.Eval.renderBlock [] false true env0.vars (fun _ _ => .unspec) none body1 env0 = .val [97, 98, 33, 111, 117, 116] := by rfl
   rw [hs] at h
   simpa [bufBytes, st0] using h.2
 
@@ -2005,7 +2162,7 @@ example : (execute gCall [116] [] 4).cls = .ok ∧ (execute gCall [116] [] 4).ch
     intro t ht
     simp only [gCall, List.mem_cons, List.mem_nil_iff, or_false] at ht
     rcases ht with rfl | rfl <;> decide
-  have h := render_refines_lexical_partial noColl gCall rfl hfr (by simp [gCall]) [116] [] (by simp) 4 none false (fun _ => rfl)
+  have h := render_refines_lexical_partial noColl gCall rfl hfr (by simp [gCall]) [116] [] (by simp) 4 none false (fun _ => rfl) none (fun _ h => by cases h)
   have hs : Spec.Eval.render gCall.reg (absK gCall.globals) none false [116] (absK []) 4 = .val [91, 76, 93, 76] := by rfl
   rw [hs] at h
   exact h
@@ -2032,7 +2189,7 @@ example : (execute gAll [116] [([120], .str [68])] 4).cls = .ok ∧
     intro t ht
     simp only [gAll, List.mem_cons, List.mem_nil_iff, or_false] at ht
     rcases ht with rfl | rfl <;> decide
-  have h := render_refines_lexical_partial noColl gAll rfl hfr (by simp [gAll]) [116] [([120], .str [68])] (by simp [OkAt, Scalar, Shallow]) 4 none false (fun _ => rfl)
+  have h := render_refines_lexical_partial noColl gAll rfl hfr (by simp [gAll]) [116] [([120], .str [68])] (by simp [OkAt, Scalar, Shallow]) 4 none false (fun _ => rfl) none (fun _ h => by cases h)
   have hs : Spec.Eval.render gAll.reg (absK gAll.globals) none false [116] (absK [([120], .str [68])]) 4 = .val [91, 76, 68, 93] := by rfl
   rw [hs] at h
   exact h
@@ -2063,7 +2220,7 @@ example : (execute gData [116] dataLM 4).cls = .ok ∧
     simp only [gData, List.mem_cons, List.mem_nil_iff, or_false] at ht
     rcases ht with rfl | rfl <;> decide
   have h := render_refines_lexical_partial collLM gData rfl hfr (by simp [gData]) [116] dataLM
-    (by simp [dataLM, OkAt, Scalar, Shallow, collLM]) 4 none false (fun _ => rfl)
+    (by simp [dataLM, OkAt, Scalar, Shallow, collLM]) 4 none false (fun _ => rfl) none (fun _ h => by cases h)
   have hs : Spec.Eval.render gData.reg (absK gData.globals) none false [116] (absK dataLM) 4 =
       .val [97, 98, 91, 80, 77, 93, 91, 82, 81, 93] := by rfl
   rw [hs] at h
@@ -2091,11 +2248,11 @@ example : bufBytes (execCmd g0 true (fun _ ctx st => ⟨.fuelOut, ctx, st⟩)
     (.forc 1 [121] (.dataRef 1 [108] .nil) (.mk 2 (.cons (.print 2 (.dataRef 2 [121] .nil) []) .nil)) none) ctx0 stL).st.out = [97, 98] := by
   have hcall : ∀ t, GoodRun ((fun _ ctx st => ⟨.fuelOut, ctx, st⟩ : Registry.Tmpl → Run) t) :=
     fun _ ctx st _ => ⟨by simp, fun h => by simp at h, Ext.refl _ _⟩
-  have h := foreach_over_value_refines g0 rfl true _ hcall [] false envL.vars (fun _ _ => .unspec) rfl (fun _ => rfl) (fun _ _ _ _ _ _ _ _ => trivial)
+  have h := foreach_over_value_refines g0 rfl true _ hcall [] false envL.vars (fun _ _ => .unspec) none rfl (fun _ => rfl) (fun _ h => by cases h) (fun _ _ _ _ _ _ _ _ => trivial)
     1 [121] (.dataRef 1 [108] .nil) 2 (.cons (.print 2 (.dataRef 2 [121] .nil) []) .nil) (by decide) ctx0 stL envL relL
     ⟨⟨1, false⟩, [⟨0, true⟩], ⟨[], false⟩, rfl, rfl, rfl⟩ (by intro f hf; simp [ctx0] at hf; rcases hf with rfl | rfl <;> simp [stL])
     (list_variable_agrees g0 1 [108] rfl ctx0 stL envL 7 [.str [97], .str [98]] (by simp [Scalar]) rfl rfl)
-  have hs : Spec.Eval.renderCmd [] false true envL.vars (fun _ _ => .unspec)
+  have hs : Spec.Eval.renderCmd [] false true envL.vars (fun _ _ => .unspec) none
       (.forc 1 [121] (.dataRef 1 [108] .nil) (.mk 2 (.cons (.print 2 (.dataRef 2 [121] .nil) []) .nil)) none) envL = .val ([97, 98], envL) := by rfl
   rw [hs] at h
   simpa [bufBytes, stL] using h.2.1
@@ -2116,7 +2273,7 @@ example : (execute gContent [116] [] 4).cls = .ok ∧ (execute gContent [116] []
     intro t ht
     simp only [gContent, List.mem_cons, List.mem_nil_iff, or_false] at ht
     rcases ht with rfl | rfl <;> decide
-  have h := render_refines_lexical_partial noColl gContent rfl hfr (by simp [gContent]) [116] [] (by simp) 4 none false (fun _ => rfl)
+  have h := render_refines_lexical_partial noColl gContent rfl hfr (by simp [gContent]) [116] [] (by simp) 4 none false (fun _ => rfl) none (fun _ h => by cases h)
   have hs : Spec.Eval.render gContent.reg (absK gContent.globals) none false [116] (absK []) 4 = .val [91, 40, 76, 41, 93] := by rfl
   rw [hs] at h
   exact h
@@ -2143,8 +2300,97 @@ example : (execute gMsg [116] dataMsg 4).cls = .ok ∧ (execute gMsg [116] dataM
     simp only [gMsg, List.mem_cons, List.mem_nil_iff, or_false] at ht
     subst ht; decide
   have h := render_refines_lexical_partial noColl gMsg rfl hfr (by simp [gMsg]) [116] dataMsg
-    (by simp [dataMsg, OkAt, Scalar, Shallow]) 4 none false (fun _ => rfl)
+    (by simp [dataMsg, OkAt, Scalar, Shallow]) 4 none false (fun _ => rfl) none (fun _ h => by cases h)
   have hs : Spec.Eval.render gMsg.reg (absK gMsg.globals) none false [116] (absK dataMsg) 4 = .val [72, 111, 117, 116, 51, 115] := by rfl
+  rw [hs] at h
+  exact h
+
+/-! ### print directives: the interpreter's own library as the specification's `DirSem` -/
+
+/-- scalars back into the interpreter's values -/
+def concV : Val → Value
+  | .undefined => .undefined
+  | .null => .null
+  | .bool b => .bool b
+  | .int i => .int (Int64.ofInt i)
+  | .float f => .float f
+  | .str s => .str s
+  | .list _ => .undefined
+  | .map _ => .undefined
+
+theorem concV_absV (mv : Value) (h : Scalar mv = true) : concV (absV mv) = mv := by
+  cases mv <;> simp_all [absV, concV, Scalar]
+
+theorem concL_absL : ∀ (l : List Value), (∀ x ∈ l, Scalar x = true) → (absL l).map concV = l
+  | [], _ => rfl
+  | x :: r, h => by
+    simp only [absL, List.map_cons]
+    rw [concV_absV x (h x List.mem_cons_self), concL_absL r (fun y hy => h y (List.mem_cons_of_mem _ hy))]
+
+theorem applyDirective_scalar (impl : Bytes) (mv : Value) (args : List Value) (r : Value) (h : Scalar mv = true)
+    (ha : applyDirective impl mv args = some r) : Scalar r = true := by
+  unfold applyDirective at ha
+  have key : r = mv ∨ ∃ s, r = .str s := by
+    repeat' split at ha
+    all_goals (try simp at ha)
+    all_goals (try split at ha)
+    all_goals (try simp at ha)
+    all_goals first
+      | exact Or.inl ha.symm
+      | exact Or.inl ha.2.symm
+      | exact Or.inr ⟨_, ha.symm⟩
+      | (obtain ⟨j, _, hj⟩ := ha; exact Or.inr ⟨_, hj.symm⟩)
+  rcases key with rfl | ⟨s, rfl⟩
+  · exact h
+  · rfl
+
+/-- the directive semantics of the interpreter's library: its table, its implementations (on scalars) -/
+def modelDirSem (tbl : Directives.Table) : Spec.Eval.DirSem :=
+  { lookup := fun name => (Directives.lookup tbl name).map fun e => (e.arities, e.impl, e.cancel)
+    apply := fun impl v args =>
+      match applyDirective impl (concV v) (args.map concV) with
+      | some r => .val (absV r)
+      | none => .error }
+
+theorem modelDirSem_ok (g : GEnv) : DirOk g (some (modelDirSem g.tbl)) := by
+  intro D hD
+  simp only [Option.some.injEq] at hD
+  subst hD
+  refine ⟨fun _ => rfl, ?_⟩
+  intro impl mv margs hsc hscs
+  simp only [modelDirSem, concV_absV mv hsc, concL_absL margs hscs]
+  cases ha : applyDirective impl mv margs with
+  | none => exact ⟨fun v' h => by simp at h, fun _ => rfl⟩
+  | some r =>
+    refine ⟨fun v' h => ?_, fun h => by simp at h⟩
+    simp only [Out.val.injEq] at h
+    exact ⟨r, rfl, h, applyDirective_scalar impl mv margs r hsc ha⟩
+
+/-! `{$x}{$x|noAutoescape}{$x|truncate:2|noAutoescape}` on x = '<b>c': "&lt;b&gt;c" "<b>c" "<b" -/
+
+def sNoAutoescape : Bytes := [110, 111, 65, 117, 116, 111, 101, 115, 99, 97, 112, 101]
+def sTruncate : Bytes := [116, 114, 117, 110, 99, 97, 116, 101]
+
+def tDir : Registry.Tmpl :=
+  { name := [116], params := [],
+    body := .mk 1 (.cons (.print 2 (.dataRef 2 [120] .nil) [])
+      (.cons (.print 3 (.dataRef 3 [120] .nil) [⟨3, sNoAutoescape, []⟩])
+      (.cons (.print 4 (.dataRef 4 [120] .nil) [⟨4, sTruncate, [.int 4 2]⟩, ⟨4, sNoAutoescape, []⟩]) .nil))),
+    autoescape := .unspecified, nsName := [110], nsAutoescape := .unspecified, pos := 0, file := [102], text := [] }
+
+def gDir : GEnv := { reg := [tDir], globals := [], ij := none, msgs := none, tbl := Gen.directiveTable, oblig := [] }
+
+example : (execute gDir [116] [([120], .str [60, 98, 62, 99])] 4).cls = .ok ∧
+    (execute gDir [116] [([120], .str [60, 98, 62, 99])] 4).chunks.flatten =
+      [38, 108, 116, 59, 98, 38, 103, 116, 59, 99, 60, 98, 62, 99, 60, 98] := by
+  have hfr : regFrag noColl gDir.reg := by
+    intro t ht
+    simp only [gDir, List.mem_cons, List.mem_nil_iff, or_false] at ht
+    subst ht; decide
+  have h := render_refines_lexical_partial noColl gDir rfl hfr (by simp [gDir]) [116] [([120], .str [60, 98, 62, 99])]
+    (by simp [OkAt, Scalar, Shallow]) 4 none false (fun _ => rfl) (some (modelDirSem gDir.tbl)) (modelDirSem_ok gDir)
+  have hs : Spec.Eval.render gDir.reg (absK gDir.globals) none false [116] (absK [([120], .str [60, 98, 62, 99])]) 4
+      (some (modelDirSem gDir.tbl)) = .val [38, 108, 116, 59, 98, 38, 103, 116, 59, 99, 60, 98, 62, 99, 60, 98] := by rfl
   rw [hs] at h
   exact h
 
@@ -2157,9 +2403,9 @@ def body2 : Block :=
 example : bufBytes (execBody g0 true (fun _ ctx st => ⟨.fuelOut, ctx, st⟩) body2 ctx0 st0).st.out = [49, 50, 51, 111, 117, 116] := by
   have hcall : ∀ t, GoodRun ((fun _ ctx st => ⟨.fuelOut, ctx, st⟩ : Registry.Tmpl → Run) t) :=
     fun _ ctx st _ => ⟨by simp, fun h => by simp at h, Ext.refl _ _⟩
-  have h := exec_refines_lexical_partial g0 rfl true _ hcall [] false env0.vars (fun _ _ => .unspec) rfl (fun _ => rfl) (fun _ _ _ _ _ _ _ _ => trivial) body2 (by decide) ctx0 st0 env0 rel0
+  have h := exec_refines_lexical_partial g0 rfl true _ hcall [] false env0.vars (fun _ _ => .unspec) none rfl (fun _ => rfl) (fun _ h => by cases h) (fun _ _ _ _ _ _ _ _ => trivial) body2 (by decide) ctx0 st0 env0 rel0
     ⟨⟨1, false⟩, [⟨0, true⟩], ⟨[], false⟩, rfl, rfl, rfl⟩ (by intro f hf; simp [ctx0] at hf; rcases hf with rfl | rfl <;> simp [st0])
-  have hs : Spec.Eval.renderBlock [] false true env0.vars (fun _ _ => .unspec) body2 env0 = .val [49, 50, 51, 111, 117, 116] := by rfl
+  have hs : Spec.Eval.renderBlock [] false true env0.vars (fun _ _ => .unspec) none body2 env0 = .val [49, 50, 51, 111, 117, 116] := by rfl
   rw [hs] at h
   simpa [bufBytes, st0] using h.2
 
